@@ -92,4 +92,23 @@ PROPS["C13"] = dict(
     level_note="Trusted: Lean kernel, factgen, badger. Concurrent asserters vs context readers: the accessor-copy fact is checked; schedules are sampled only.",
 )
 
+PROPS["C09"] = dict(
+    modules=["Hub.Props.C09"],
+    gens=["c09"],
+    rule="random event scripts (4-10 events over sync ids x,y and none; entity pool 4) of HTTP start/batch/end requests through the real echo "
+         "handler, job-sink start/batch/end calls, plain writes and REAL lease expiries (lease 400 ms, expiry = 900 ms sleep) on a fresh dataset of "
+         "a real hub; result class, live ids, tombstones per entity and the started flag compared after every event with the model and with a spec "
+         "that gives job syncs an identity; non-trivial = at least one completion that deleted something",
+    trusted=["real timers: an expiry event is a sleep of 2.25x the lease; a stall of the machine longer than the lease inside a script would be a false alarm (cases are re-run before they are reported)",
+             "the lease goroutine races with request handlers without synchronisation (Go memory model) — sampled only"],
+    assumptions=["'different sync id' = different from the id of the sync that is active; with no active sync a batch without start header is a plain write"],
+    level_text="Proof over the full-sync state machine: in every reachable state 'seen' is exactly what was written since the start of the started sync and "
+               "all of it is live (Inv, run_inv), so a completion keeps exactly those and tombstones every other live entity once (completion_exact, "
+               "tombstones_once); a non-start request with a foreign id changes nothing (foreign_rejected); only an end marker of the started sync with its "
+               "lease armed, or a job end of a started sync, can delete (dead_sync_deletes_nothing_http, only_completion_deletes, expired_job_sync_deletes_nothing). "
+               "PARTIAL for job-driven syncs: they carry no identity, so a job sync superseded by another start still completes (job_sync_superseded_deletes, "
+               "known finding D10b).",
+    level_note="Trusted: Lean kernel, factgen shapes, real timers in the tie. Known finding D10b is recorded in known_findings.json.",
+)
+
 NOT_YET = {}
